@@ -342,6 +342,7 @@ fn get_filtered_data<'r>(
             };
 
             read_group_name = Some(s);
+            continue;
         }
 
         data_buf.push((tag, value.try_into()?));
